@@ -11,6 +11,7 @@ import hmac
 import json
 import struct
 import vlib
+from props import c12relogin
 
 KEY1 = bytes(range(1, 33))
 KEY2 = bytes(range(101, 141))
@@ -258,6 +259,8 @@ def split_answer(line):
 def evaluate(ctx, cases):
     """Phase 1: implementation (two drivers).  Phase 2: model with the aux values.  Returns
     (results, aux, model) lists aligned with cases, or raises RuntimeError(kind, text)."""
+    if not cases:
+        return [], [], []
     main_idx = [i for i, c in enumerate(cases) if c.startswith("K ")]
     ext_idx = [i for i, c in enumerate(cases) if not c.startswith("K ")]
     raw = [None] * len(cases)
@@ -528,9 +531,14 @@ def run(ctx):
             ctx.violation("corr", "harness-build-broken", "%s no longer builds against the repository: %s" % (what, out[-1500:]),
                           {"correspondence": "build of " + what})
             ctx.finish()
+    relogin_scns = None
     if ctx.replay:
         rp = json.load(open(ctx.replay))
-        cases = [r["case"] for r in [rp["replay"]] + rp.get("more_cases", []) if isinstance(r, dict) and "case" in r]
+        reps = [r for r in [rp["replay"]] + rp.get("more_cases", []) if isinstance(r, dict)]
+        cases = [r["case"] for r in reps if "case" in r]
+        relogin_scns = [c12relogin.Scn.from_lines(r["scenario"]) for r in reps if "scenario" in r]
+        for k, sc in enumerate(relogin_scns):
+            sc.id = "%s_r%d" % (sc.id, k)
     else:
         cases = gen_cases(ctx)
     cases = list(dict.fromkeys(cases))
@@ -575,6 +583,9 @@ def run(ctx):
                       % (len(open_mism), len(cases), c[:400], i[:400], m[:400], searched),
                       {"correspondence": "projection " + c.split()[0], "case": c, "impl": i, "model": m,
                        "more": [{"case": x, "impl": y, "model": z} for x, y, z in open_mism[1:10]]})
+    # token re-issuance on {login}: Session.login / onLogin (Sys/Relogin.v), package-main driver
+    if relogin_scns is None or relogin_scns:
+        ctx.coverage["relogin"] = c12relogin.run(ctx, relogin_scns)
     kinds, outs = {}, {}
     for c in cases:
         k = c.split()[0]
@@ -597,7 +608,7 @@ def run(ctx):
                 "cache; basic: sequences of AddRecord / Authenticate / UpdateRecord / time steps over logins differing in case, "
                 "compared op by op and on the final table; strings.ToLower idempotence on all 0x110000 code points. "
                 "non-trivial = accepted by the implementation",
-        "samples": [{"case": c[:300], "impl": table[c][:300]} for c in (cases[:2] + ctx.rng.sample(cases, min(6, len(cases))))],
+        "samples": [{"case": c[:300], "impl": table[c][:300]} for c in (cases[:2] + ctx.rng.sample(cases, min(6, len(cases))))] if cases else [],
         "traces_validated_against_impl": len(cases), "correspondence_mismatches": len(open_mism),
         "monitor_failures": len(fails) + len(found), "search_pool": searched,
         "input_distribution": {"by_request_kind": kinds, "by_outcome": outs},
